@@ -17,7 +17,7 @@ import (
 // §5 C13). History/schedule property of the shared limiter semaphores.
 
 type C13Session struct {
-	Mode      string `json:"mode"`  // cat | tail
+	Mode      string `json:"mode"`  // cat | tail | grepmax (grep --max 1: the filter cancels its reader) | mapcat (map + cat: reads feed the aggregator)
 	Files     int    `json:"files"` // files matched by the session's glob
 	Lines     int    `json:"lines"` // lines per file
 	StartMs   int    `json:"start_ms"`
@@ -53,7 +53,9 @@ func c13Gen(r *Rand, tier string, i int) Scenario {
 	for k := 0; k < n; k++ {
 		s := C13Session{Mode: "cat", Files: PickOf(r, 1, 1, 2, 3, 6), Lines: PickOf(r, 5, 40, 120, 250), StartMs: PickOf(r, 0, 0, 0, 1, 5, 50),
 			ResetAtMs: -1, CloseAtMs: -1, PaceMs: PickOf(r, 0, 0, 1, 5)}
-		if r.Bool(0.35) {
+		if r.Bool(0.2) {
+			s.Mode = PickOf(r, "grepmax", "mapcat")
+		} else if r.Bool(0.35) {
 			s.Mode = "tail"
 			s.Files = PickOf(r, 1, 2, 3)
 			s.Lines = 5
@@ -211,7 +213,15 @@ func c13Run(t *testing.T, s Scenario, src verifsim.DecisionSource, keep bool) *R
 			if ss.BadGz {
 				glob += ".gz"
 			}
-			rs.Command(CatCommand(ss.Mode, glob, ""))
+			switch ss.Mode {
+			case "grepmax":
+				rs.Command(fmt.Sprintf("grep:max=1 %s regex:default zz", glob))
+			case "mapcat":
+				rs.Command("map select count($line) group by $hostname interval 1 logformat generic")
+				rs.Command(CatCommand("cat", glob, ""))
+			default:
+				rs.Command(CatCommand(ss.Mode, glob, ""))
+			}
 			start := time.Now()
 			deadline := 5 * time.Minute
 			for {
